@@ -94,7 +94,7 @@ def compare(hist: dict, got: List[list], ref: Dict[str, list]) -> Optional[dict]
 # ------------------------------------------------------------------ history generation
 
 
-def systematic_blocks() -> Tuple[List[dict], Dict[str, int]]:
+def systematic_blocks(p_mod: int = 1, p_rot: int = 0) -> Tuple[List[dict], Dict[str, int]]:
     """The guaranteed prefix: every related (change, observation) pair once, replace /
     remove pairs inside one area, and the crash-point walk of compilation."""
     hs: List[dict] = []
@@ -153,17 +153,38 @@ def systematic_blocks() -> Tuple[List[dict], Dict[str, int]]:
                 hs.append({"ops": ops, "fault": {"at": len(cfg_list), "cb": "*", "n": k}, "block": "C"})
                 nc += 1
     counts["C"] = nc
+    # P: cross-area pairs: two configuration operations of different areas related to the same
+    # observation (e.g. a field validator, then a class aliaser that renames its error location)
+    area_of = {c: a for a, names in pool.AREAS.items() for c in names}
+    np_ = 0
+    for o in obs:
+        rel = [c for c in cfgs if pool.related(c, o) and "knob" not in pool.TAGS[c]]
+        for c1 in rel:
+            for c2 in rel:
+                if area_of[c1] == area_of[c2]:
+                    continue
+                if p_mod > 1:
+                    hv = int.from_bytes(hashlib.blake2b((c1 + "|" + c2 + "|" + o).encode(), digest_size=4).digest(), "big")
+                    if hv % p_mod != p_rot % p_mod:
+                        continue
+                hs.append({"ops": [["cfg", c1], ["obs", o], ["cfg", c2], ["obs", o]], "fault": None, "block": "P"})
+                np_ += 1
+    counts["P"] = np_
     return hs, counts
 
 
-_SYS = None
+_SYS: Dict[tuple, tuple] = {}
+
+# quick tier runs 1/P_MOD_QUICK of the cross-area block P (which sixteenth rotates with VERIF_SEED);
+# the thorough tier runs all of it
+P_MOD_QUICK = 24
 
 
-def systematic() -> Tuple[List[dict], Dict[str, int]]:
-    global _SYS
-    if _SYS is None:
-        _SYS = systematic_blocks()
-    return _SYS
+def systematic(tier: str = "quick", batch: int = 0) -> Tuple[List[dict], Dict[str, int]]:
+    key = (1, 0) if tier == "thorough" else (P_MOD_QUICK, batch % P_MOD_QUICK)
+    if key not in _SYS:
+        _SYS[key] = systematic_blocks(*key)
+    return _SYS[key]
 
 
 def random_history(seed: int, tier: str) -> dict:
@@ -203,8 +224,8 @@ def random_history(seed: int, tier: str) -> dict:
     return {"ops": ops, "fault": fault, "block": "R"}
 
 
-def make_history(index: int, seed: int, tier: str) -> dict:
-    sys_h, _ = systematic()
+def make_history(index: int, seed: int, tier: str, batch: int = 0) -> dict:
+    sys_h, _ = systematic(tier, batch)
     if index < len(sys_h):
         h = dict(sys_h[index])
     else:
